@@ -165,6 +165,7 @@ def generate(pyx_text):
 
 FLAGS = {
     'plain': ['-O2'],
+    'vg': ['-O0', '-g', '-gdwarf-4', '-fno-omit-frame-pointer'],       # for valgrind memcheck (uninitialised reads)
     'asan': ['-O1', '-g', '-fno-omit-frame-pointer', '-fsanitize=address,undefined', '-fno-sanitize-recover=undefined',
              '-shared-libasan'],
 }
@@ -180,7 +181,7 @@ def build(variant='plain'):
     """returns (path to .so, structs). Raises Inconclusive when the shim does not compile."""
     h, pyx = sources()
     src, structs = generate(pyx)
-    key = hashlib.sha256((h + '\0' + pyx + '\0' + src + '\0' + variant).encode()).hexdigest()[:20]
+    key = hashlib.sha256((h + '\0' + pyx + '\0' + src + '\0' + variant + ' '.join(FLAGS[variant])).encode()).hexdigest()[:20]
     bdir = os.path.join(env.VERIF, 'build', key)
     so = os.path.join(bdir, f'shim_{variant}.so')
     if os.path.exists(so):
